@@ -33,7 +33,7 @@ ANCHORS = ["dagrt.codegen.utils:KeyToUniqueNameMap.get_or_make_name_for_key",
            "dagrt.codegen.python:PythonNameManager.__getitem__",
            "dagrt.codegen.fortran:FortranNameManager.__getitem__",
            "dagrt.codegen.fortran:FortranNameManager.name_refcount"]
-MIN_NONTRIVIAL = {"quick": 3000, "thorough": 100000}
+MIN_NONTRIVIAL = {"quick": 3000, "thorough": 560000}
 REQUIRED_COUNTERS = {"quick": ["lookups_python", "lookups_fortran", "invariant_evaluations",
                                "python_compile_checks", "fortran_syntax_checks"],
                      "thorough": ["lookups_python", "lookups_fortran", "invariant_evaluations",
@@ -48,7 +48,7 @@ def plan(tier, seed):
     sh = []
     for k in range(12):
         sh.append({"kind": "exh", "k": k, "n": 12, "maxlen": 2 if tier == "quick" else 3})
-    per = 150 if tier == "quick" else 4000
+    per = 150 if tier == "quick" else 32000
     for k in range(12):
         sh.append({"kind": "rand", "seed": f"C13:{seed}:{k}", "count": per,
                    "compile_every": 10 if tier == "quick" else 25})
@@ -182,11 +182,14 @@ def check_python(lookups, rec, do_compile):
             rec.violation("python-reserved-identifier-issued", f"{n!r} -> {ident!r}", wit)
             return
     by_ident = {}
+    import unicodedata
     for (kind, n), ident in seen.items():
+        # Python compares identifiers after NFKC normalisation (PEP 3131)
+        ident = unicodedata.normalize("NFKC", ident)
         if ident in by_ident and by_ident[ident] != (kind, n):
             o = by_ident[ident]
             rec.violation("python-collision-" + shape_key(None, n, o[1]),
-                          f"{n!r} and {o[1]!r} both map to {ident!r}", wit)
+                          f"{n!r} and {o[1]!r} both map to {ident!r} (after NFKC normalisation)", wit)
             return
         by_ident[ident] = (kind, n)
     if do_compile and seen:
@@ -317,8 +320,13 @@ def gen_set(rng):
         b = rng.choice(bases)
         if r < 0.2:
             s = b
-        elif r < 0.4:
+        elif r < 0.34:
             s = b + rng.choice(["^", "*", "_", "'", ".", "-", "!", " "])
+        elif r < 0.4:
+            # non-ASCII letters / digits (str.isalnum() accepts them; NFKC folds some onto others or onto ASCII)
+            c = rng.choice(["\u00b5", "\u03bc", "\u00b2", "\u00e9", "\uff41", "\u00df", "\u0131", "\u017f",
+                            "\u2167", "\u0660"])
+            s = rng.choice([b + c, c + b, c, b[:1] + c + b[1:]])
         elif r < 0.55:
             s = b.swapcase() if rng.random() < 0.5 else b.upper()
         elif r < 0.7:
